@@ -123,7 +123,11 @@ with SqliteImpl.impl_store.impl_manager as impl:
                 return x
             return sqa.func.ROUND(x, decimals, type_=x.type)
         # For some reason SQLite doesn't like negative decimals values
-        return sqa.func.ROUND(x / (10**-decimals), type_=x.type) * (10**-decimals)
+        res = sqa.func.ROUND(x / (10**-decimals), type_=x.type) * (10**-decimals)
+        if isinstance(x.type, sqa.Integer):
+            # the division turned the integer into a float
+            res = sqa.cast(res, x.type)
+        return res
 
     @impl(ops.str_starts_with)
     def _str_starts_with(x, y):
